@@ -948,7 +948,31 @@ pub fn t14(prop: &str, seed: u64) -> RunDesc {
     let mut rng = Rng::new(seed);
     let mut d = base(&mut rng, prop, "dir-t14", seed, 5);
     d.cfg.stall = None;
-    d.threads.push(thread(0, "setup", setup_parent_child(false, true)));
+    // variant: the child is destructed long before (block kept by two weak owners: WROOT[0] and
+    // the parent's *weak* field); the last weak owner is then the AtomicWeak that is dropped as
+    // a field of the parent when the parent is destructed under the reader
+    let weak_in_parent = Rng::new(seed ^ 0x14A).chance(0.4);
+    if weak_in_parent {
+        d.threads.push(thread(
+            0,
+            "setup",
+            vec![
+                o(K::New, 0, NONE_SLOT, 1, 0),
+                o(K::New, 1, NONE_SLOT, 2, 0),
+                o(K::Pin, 0, 0, 0, 0),
+                o(K::Downgrade, 1, 0, 0, 0),
+                o(K::StoreW, WROOT0, 0, 0, 0),
+                o(K::Downgrade, 1, 0, 0, 0),
+                o(K::StoreW, 100, 0, 0, 0), // P.wlink <- weak X
+                o(K::Store, ROOT1, 0, 0, 0),
+                o(K::DropRc, 1, 0, 0, 0),
+                o(K::Flush, 0, 0, 0, 0),
+                o(K::Unpin, 0, 0, 0, 0),
+            ],
+        ));
+    } else {
+        d.threads.push(thread(0, "setup", setup_parent_child(false, true)));
+    }
     d.threads.push(thread(1, "age", rounds(3 + rng.below(4) as usize)));
     d.threads.push(thread(2, "retire-parent", vec![o(K::Pin, 0, 0, 0, 0), o(K::Store, ROOT1, NONE_SLOT, 0, 0), o(K::Flush, 0, 0, 0, 0), o(K::Unpin, 0, 0, 0, 0)]));
     let mut adv = Vec::new();
@@ -968,7 +992,7 @@ pub fn t14(prop: &str, seed: u64) -> RunDesc {
     w.extend(rounds(1 + rng.below(3) as usize));
     w.push(o(K::Signal, 5, 0, 0, 0));
     d.threads.push(thread(4, "drop-last-weak-and-collect", w));
-    d.params = J::obj().set("template", "T14 WeakSnapshot outlives the last Weak and the object");
+    d.params = J::obj().set("template", "T14 WeakSnapshot outlives the last Weak and the object").set("last_weak_is_a_field_of_the_parent", weak_in_parent);
     d
 }
 
